@@ -124,6 +124,27 @@ func (l *l16) scriptCascadeOverLoggedOutService(chain string) {
 		})
 }
 
+// scriptNodeLogoutWhileAuditAdminBinds: an nvp node is registered, an audit admin bound to it is proposed (node
+// "binding"), then the node's logout is proposed: the admin's proposal is paused by that, votes on it are refused
+// and the node's fate is decided by its own proposal alone.
+func (l *l16) scriptNodeLogoutWhileAuditAdminBinds() {
+	w := l.world
+	node := harness.DetKey("lc-node-0").Addr.String()
+	cand := harness.DetKey("candidate-admin-0").Addr.String()
+	adm := harness.AdminKey(0)
+	l.script = append(l.script, func() (pb.Transaction, string, []string) {
+		return w.BVM(adm, harness.AddrNode, "RegisterNode", pb.String(node), pb.String("nvpNode"), pb.String(""), pb.Uint64(0), pb.String("nvp-"+node[2:8]), pb.String(harness.ChainA), pb.String("r")), "RegisterNode " + node[:8] + " (scripted)", []string{node}
+	}, l.scriptApprove(1, node, ""), l.scriptApprove(2, node, ""), l.scriptApprove(3, node, ""),
+		func() (pb.Transaction, string, []string) {
+			return w.BVM(adm, harness.AddrRole, "RegisterRole", pb.String(cand), pb.String("auditAdmin"), pb.String(node), pb.String("r")), "RegisterRole " + cand[:8] + " as audit admin of " + node[:8] + " (scripted)", []string{cand, node}
+		},
+		func() (pb.Transaction, string, []string) {
+			return w.BVM(adm, harness.AddrNode, "LogoutNode", pb.String(node), pb.String("r")), "LogoutNode " + node[:8] + " (scripted, audit admin still being registered)", []string{node, cand}
+		},
+		// votes on the admin's proposal: they concern the admin, not the node
+		l.scriptApprove(0, cand, ""), l.scriptApprove(1, cand, ""), l.scriptApprove(2, cand, ""), l.scriptApprove(3, cand, ""))
+}
+
 // scriptRejectedRuleUpdate: a master-rule update is voted down: the old master rule is the chain's available
 // master again (the chain itself stays paused until it is activated).
 func (l *l16) scriptRejectedRuleUpdate(chain string) {
@@ -287,7 +308,7 @@ func (l *l16) govOp() []string {
 		m := []string{"FreezeRole", "ActivateRole", "LogoutRole"}[r.Intn(3)]
 		tx, desc, concerns = w.BVM(adm, harness.AddrRole, m, pb.String(cand), pb.String("r")), m+" "+cand[:8], []string{cand}
 	case x < 97:
-		tx, desc, concerns = w.BVM(adm, harness.AddrNode, "RegisterNode", pb.String(node), pb.String("nvpNode"), pb.String(""), pb.Uint64(0), pb.String("nvp-"+node[2:8]), pb.String(""), pb.String("r")), "RegisterNode "+node[:8], []string{node}
+		tx, desc, concerns = w.BVM(adm, harness.AddrNode, "RegisterNode", pb.String(node), pb.String("nvpNode"), pb.String(""), pb.Uint64(0), pb.String("nvp-"+node[2:8]), pb.String([]string{"", harness.ChainA, harness.ChainB}[r.Intn(3)]), pb.String("r")), "RegisterNode "+node[:8], []string{node}
 	default:
 		tx, desc, concerns = w.BVM(adm, harness.AddrNode, "LogoutNode", pb.String(node), pb.String("r")), "LogoutNode "+node[:8], []string{node}
 	}
@@ -343,8 +364,23 @@ func (l *l16) observe(concerns []string, h uint64) {
 		if !model.LcPath(o.class, old, st, 2) {
 			l.viol(fmt.Sprintf("lifecycle:undeclared-edge:%s:%s->%s", o.class, old, st), fmt.Sprintf("block %d: %s %s moved %s -> %s, which is not a path of at most two declared transitions", h, o.class, o.id, old, st))
 		}
+		// an audit admin is bound to an nvp node: what is decided about the one moves the other (binding, binded,
+		// a registration that loses its node) - except that a node whose own logout is pending ("logouting") is
+		// only moved by the conclusion of that proposal, the admin's proposal is paused meanwhile
+		boundPartner := false
+		if o.class == "role" || o.class == "node" {
+			for _, p := range l.objs {
+				if (p.class == "role" || p.class == "node") && p.class != o.class && conc[p.id] {
+					boundPartner = true
+				}
+			}
+			if o.class == "node" && old == "logouting" && !conc[o.id] {
+				l.viol("lifecycle:logouting-node-moved-by-another-proposal", fmt.Sprintf("block %d: node %s, whose logout proposal is open, moved logouting -> %s in a block whose transaction concerned %v", h, o.id, st, concerns))
+				boundPartner = true // reported under its own signature
+			}
+		}
 		// cause: an operation / vote concerning the object or its owning chain in this block
-		if !conc[o.id] && !conc[o.chain] && !(o.class == "service" && conc[strings.Split(o.id, ":")[0]]) {
+		if !boundPartner && !conc[o.id] && !conc[o.chain] && !(o.class == "service" && conc[strings.Split(o.id, ":")[0]]) {
 			l.viol("lifecycle:change-without-cause:"+o.class, fmt.Sprintf("block %d: %s %s moved %s -> %s but the block's transaction concerned %v", h, o.class, o.id, old, st, concerns))
 		}
 	}
@@ -603,6 +639,10 @@ func lc16Case(w *vlog.W, a *wargs, id int, rng *rand.Rand, opts harness.Options)
 		l.hub = true
 	}
 	l.observe(nil, world.R.Height())
+	if rng.Intn(5) == 0 {
+		l.scriptNodeLogoutWhileAuditAdminBinds()
+		l.shape["scripted:node-logout-while-audit-admin-binds"] = true
+	}
 	switch sc, chain := rng.Intn(6), []string{harness.ChainA, harness.ChainB, harness.ChainC}[rng.Intn(3)]; sc {
 	case 0, 1:
 		l.scriptFrozenChainRuleChange(chain)
